@@ -77,10 +77,11 @@ type frame struct {
 
 func (c *Ctx) goPanic(msg string, v Value) {
 	st := append([]string(nil), c.stack...)
+	runtime := v == nil
 	if v == nil {
 		v = Iface{T: types.Typ[types.String], V: Conc(msg)}
 	}
-	panic(&GoPanic{Val: v, Msg: msg, Stack: st})
+	panic(&GoPanic{Val: v, Msg: msg, Stack: st, Runtime: runtime})
 }
 
 func (c *Ctx) get(fr *frame, v ssa.Value) Value {
@@ -258,12 +259,60 @@ func (c *Ctx) interpretEnv(fn *ssa.Function, args []Value, env []Value) (result 
 		fr.env[fi.index[fv]] = env[i]
 	}
 	fr.block = fn.Blocks[0]
-	for !fr.done {
-		c.runBlock(fr)
-	}
-	c.stack = c.stack[:len(c.stack)-1]
-	c.depth--
+	myDepth, myStack := c.depth, len(c.stack)
+	func() {
+		defer func() {
+			r := recover()
+			if r == nil {
+				return
+			}
+			gp, isGo := r.(*GoPanic)
+			if !isGo || gp.Exit || len(fr.defers) == 0 {
+				panic(r)
+			}
+			// a Go panic unwinds through this frame: its deferred calls run, one of them may recover
+			c.depth, c.stack = myDepth, c.stack[:myStack]
+			ps := &panicState{gp: gp}
+			c.panics = append(c.panics, ps)
+			n := len(c.panics)
+			c.runDefers(fr)
+			c.panics = c.panics[:n-1]
+			if !ps.recovered {
+				panic(gp)
+			}
+			fr.done = false
+			if fn.Recover != nil {
+				fr.prev, fr.block = nil, fn.Recover
+				for !fr.done {
+					c.runBlock(fr)
+				}
+			} else {
+				fr.result = zeroResults(fn)
+			}
+		}()
+		for !fr.done {
+			c.runBlock(fr)
+		}
+	}()
+	c.stack = c.stack[:myStack-1]
+	c.depth = myDepth - 1
 	return fr.result
+}
+
+// zeroResults is what a function without named results returns after a recovered panic.
+func zeroResults(fn *ssa.Function) Value {
+	res := fn.Signature.Results()
+	switch res.Len() {
+	case 0:
+		return nil
+	case 1:
+		return zero(res.At(0).Type())
+	}
+	t := make(Tuple, res.Len())
+	for i := range t {
+		t[i] = zero(res.At(i).Type())
+	}
+	return t
 }
 
 func (c *Ctx) runBlock(fr *frame) {
@@ -954,6 +1003,14 @@ func (c *Ctx) builtin(b *ssa.Builtin, args []Value) Value {
 		}
 		return args[0]
 	case "recover":
+		if n := len(c.panics); n > 0 && !c.panics[n-1].recovered {
+			ps := c.panics[n-1]
+			if ps.gp.Runtime {
+				c.Unsupported("recover() of a run-time error (runtime.Error values are not modelled)")
+			}
+			ps.recovered = true
+			return ps.gp.Val
+		}
 		return Iface{}
 	case "min", "max":
 		r := args[0]
